@@ -46,6 +46,44 @@ PIPELINES = {
         ],
         "min_events": 200,
     },
+    # generation as a pure function: TLC-simulated sessions, threads, fresh processes
+    "purity": {
+        "variants": ["ring"],
+        "mc": [{"module": "MC_Purity", "workers": 8, "emits": False},
+               {"module": "MC_Purity", "mode": "simulate", "cfg": "MC_Purity_sim.cfg", "num": {"quick": 60, "thorough": 1500}, "depth": 40}],
+        "drivers": [{"name": "all", "cmd": ["purity", "{cases_MC_Purity_sim}", "{out}", "{workdir}", "{tier}", "{bin_ring}"], "chunk": 10000000, "random": True,
+                     "require_cov": ["genBackends=1"]}],
+        "min_events": 1000,
+    },
+    # the same, over the three builds of the harness: ring, aws-lc-rs, crypto-less (remote signer)
+    "backends": {
+        "variants": ["ring"],
+        "extra_builds": ["awslc", "nocrypto"],
+        "mc": [{"module": "MC_Purity", "mode": "simulate", "cfg": "MC_Purity_sim.cfg", "num": {"quick": 20, "thorough": 300}, "depth": 40}],
+        "drivers": [{"name": "all", "cmd": ["purity", "{cases_MC_Purity_sim}", "{out}", "{workdir}", "{tier}", "{bin_ring}", "{bin_awslc}", "{bin_nocrypto}"],
+                     "chunk": 10000000, "random": True, "require_cov": ["genBackends=3"]}],
+        "min_events": 1000,
+    },
+    "features": {
+        "variants": ["ring"],
+        "mc": [{"module": "MC_Features", "workers": 2, "emits": False}],
+        "drivers": [{"name": "builds", "cmd": ["features", "{repo}", "{feature_target}", "{out}"], "chunk": 100000, "require_cov": ["featureSets=24"], "timeout": 3000}],
+        "min_events": 26,
+    },
+    "keyxfer": {
+        "variants": ["ring", "awslc"],
+        "extra_builds": ["awslc", "ring"],
+        "mc": [],
+        "drivers": [{"name": "xfer", "cmd": ["key-xfer", "{workdir}", "{out}", "{bin_other}"], "chunk": 100000}],
+        "min_events": 20,
+    },
+    # certificates signed under aws-lc-rs, verified by ring (harness) and OpenSSL
+    "cert-awslc": {
+        "variants": ["awslc"],
+        "mc": [{"module": "MC_Cert", "workers": 8}],
+        "drivers": [{"name": "cases", "cmd": ["cert-cases", "{cases}", "{out}"], "cases": "MC_Cert"}],
+        "min_events": 1000,
+    },
     "csrparse": {
         "variants": ["ring"],
         "mc": [{"module": "MC_CsrParse", "workers": 4, "emits": False}],
@@ -139,6 +177,12 @@ PROPS = {
     "C14": _p("model_checking", ["pem"], ["C14."],
               "certificate / CSR / CRL for common-name lengths 0..149 (every residue of the DER length modulo 48 is required by a coverage predicate evaluated by TLC) x algorithms (Ed25519 over the full span, P-256/P-384/RSA-2048 sampled, multi-kilobyte RSA certificates with 40 SANs), private and public key PEM per algorithm; distinct by (kind, algorithm, DER length)",
               ops=["Pem"], exhaustive=False),
+    "C15": _p("model_checking", ["purity"], ["C15."],
+              "MC_Purity: every interleaving of 3 threads x 2 generation calls over 8 templates (exhaustive, history hidden by a VIEW); sessions = TLC -simulate behaviours of the same module (4 threads x 6 calls interleaved with interfering calls: DN edits, key loads, failing parses, CSR parsing, the same key under other key-identifier methods, unrelated generations, CA import) replayed call by call; 8 generation templates (certificate self-signed / issued, CSR, CRL; rich names, 6 EKUs, name constraints, custom extensions) on shared Ed25519 / RSA / P-256 keys and a shared issuer; threads sharing Arc'd key and issuer; fresh processes (different hash-map seeds) sharing the same key files; distinct by (template, back end, process, thread, phase)",
+              ops=["Gen"], exhaustive=False),
+    "C16": _p("exploration", ["features", "backends", "keyxfer", "cert-awslc"], ["C16."],
+              "configuration enumeration: cargo check of rcgen for all 24 feature sets {ring | aws_lc_rs | none} x {pem} x {x509-parser} x {zeroize} plus the CLI with either back end (coverage predicate featureSets=24 evaluated by TLC); the purity sessions/threads/processes run under the ring, aws-lc-rs and crypto-less builds of the harness with the same key files and their to-be-signed digests compared through the specification's write-once registers (coverage genBackends=3); keys exported by each back end loaded by the other through four entry points; the MC_Cert case set issued under aws-lc-rs and verified by ring and OpenSSL; distinct by event arguments",
+              ops=["Build", "Gen", "KeyXfer", "Cert"], exhaustive=False),
     "C17": _p("model_checking", ["import"], ["C17."],
               "every self-signed case of MC_Cert.Cases (presence product sampled 1:3 in quick, all value sweeps: 512 key-usage sets, path lengths 0..255, prefixes 0..255, SAN / subtree / DN-kind variants, key-id methods, serial classes) is generated, imported through DER and PEM, and re-issued from the imported parameters with the same key; plus OpenSSL-generated CAs over MC_Import.Cases",
               ops=["ImportCa"], exhaustive=True),
